@@ -156,3 +156,78 @@ def outline(src, ret_types, log):
                 buf_orig = o + k
     linemap.append(buf_orig if buf_orig is not None else last)
     return text, linemap
+
+
+def select_rewrite(src, log):
+    """R-select (pre-pass):  tokio::select! { P1 = F1 => E1, P2 = F2 => E2 }
+         ->  match verif_select(2) { 0 => { let P1 = F1.await; E1 } _ => { let P2 = F2.await; E2 } }
+    select! polls the futures concurrently, runs the arm of the first one that completes and drops the others.
+    The rewrite reads this as a nondeterministic choice of ONE future that runs to completion while the others never
+    start: effects of a future that was polled and then dropped are not modelled (for Handler::run the other arm
+    returns from the function, so nothing the dropped read_frame did is observable afterwards).
+    Only whitespace-free token edits: line numbers are unchanged."""
+    toks = lex(src)
+    s = _sig(toks, 0, len(toks))
+    repl = {}    # token idx -> new text
+    ins_before = {}
+    ins_after = {}
+    n = 0
+    while n + 5 < len(s):
+        if [toks[s[n + k]].text for k in range(5)] == ["tokio", "::", "select", "!", "{"]:
+            op = s[n + 4]
+            cl = match_close(toks, op)
+            # split arms at depth 0
+            inner = _sig(toks, op + 1, cl)
+            arms = []
+            k = 0
+            while k < len(inner):
+                a0 = inner[k]
+                # pattern up to first '=' (not '=>', '==')
+                e = k
+                while toks[inner[e]].text != "=":
+                    e += 1
+                # future up to '=>' at depth 0
+                f = e + 1
+                while toks[inner[f]].text != "=>":
+                    if toks[inner[f]].text in ("(", "[", "{"):
+                        f = inner.index(match_close(toks, inner[f]))
+                    f += 1
+                b = f + 1
+                if toks[inner[b]].text == "{":
+                    bend = inner.index(match_close(toks, inner[b]))
+                    nxt = bend + 1
+                    if nxt < len(inner) and toks[inner[nxt]].text == ",":
+                        nxt += 1
+                else:
+                    bend = b
+                    while bend < len(inner) and toks[inner[bend]].text != ",":
+                        if toks[inner[bend]].text in ("(", "[", "{"):
+                            bend = inner.index(match_close(toks, inner[bend]))
+                        bend += 1
+                    nxt = bend + 1 if bend < len(inner) else bend
+                    bend -= 1
+                arms.append((a0, inner[e], inner[f], inner[b], inner[bend], inner[nxt - 1] if nxt - 1 < len(inner) and toks[inner[nxt - 1]].text == "," else None))
+                k = nxt
+            for j in range(4):
+                repl[s[n + j]] = ""
+            repl[s[n]] = "match verif_select(%d)" % len(arms)
+            for idx, (a0, eq, arrow, b0, bend, comma) in enumerate(arms):
+                label = str(idx) if idx + 1 < len(arms) else "_"
+                ins_before[a0] = "%s => { let " % label
+                repl[arrow] = ".await;"
+                ins_after[bend] = " }"
+                if comma is not None:
+                    repl[comma] = ""
+            log("R-select: tokio::select! with %d arms -> nondeterministic choice of one arm" % len(arms))
+            n = s.index(cl) if cl in s else n + 5
+        n += 1
+    out = []
+    for i, t in enumerate(toks):
+        if i in ins_before:
+            out.append(ins_before[i])
+        out.append(repl.get(i, t.text))
+        if i in ins_after:
+            out.append(ins_after[i])
+    text = "".join(out)
+    assert text.count("\n") == src.count("\n")
+    return text
